@@ -687,12 +687,12 @@ impl PreferenceManager {
         // don't do an update if the value hasn't changed
         let mut is_user_pref = true;
         if let Some(pref_value) = self.api_prefs.prefs.get(key) {
-            if pref_value.as_str().unwrap() != value {
+            if PreferenceManager::string_pref_value(key, pref_value)? != value {
                 is_user_pref = false;
                 self.reset_files_from_preference_change(key, value)?;
             }
         } else if let Some(pref_value) = self.user_prefs.prefs.get(key) {
-            if pref_value.as_str().unwrap() != value {
+            if PreferenceManager::string_pref_value(key, pref_value)? != value {
                 self.reset_files_from_preference_change(key, value)?;
             }
         } else {
@@ -747,22 +747,48 @@ impl PreferenceManager {
         return Ok( () );
     }
 
+    /// Returns the string stored for the string-valued preference `key`, or an error if the stored value is not a string
+    fn string_pref_value<'a>(key: &str, pref_value: &'a Yaml) -> Result<&'a str> {
+        return match pref_value.as_str() {
+            Some(str) => Ok(str),
+            None => bail!("{} is not a string-valued MathCAT preference!", key),
+        };
+    }
+
+    /// Returns the stored value of preference `key` (api prefs are looked at first), or an error if it is not a known preference
+    fn known_pref_value(&self, key: &str) -> Result<&Yaml> {
+        return match self.api_prefs.prefs.get(key).or_else(|| self.user_prefs.prefs.get(key)) {
+            Some(pref_value) => Ok(pref_value),
+            None => bail!("{} is an unknown MathCAT preference!", key),
+        };
+    }
+
     /// Set the number-valued preference.
     /// All number-valued preferences are stored with type `f64`.
-    pub fn set_api_float_pref(&mut self, key: &str, value: f64) {
+    pub fn set_api_float_pref(&mut self, key: &str, value: f64) -> Result<()> {
         if !self.error.is_empty() {
             panic!("Internal error: set_api_float_pref called on invalid PreferenceManager -- error message\n{}", &self.error);
         };
 
+        match self.known_pref_value(key)? {
+            Yaml::Real(_) | Yaml::Integer(_) => (),
+            _ => bail!("{} is not a number-valued MathCAT preference!", key),
+        }
         self.api_prefs.prefs.insert(key.to_string(), Yaml::Real(value.to_string()));
+        return Ok( () );
     }
 
-    pub fn set_api_boolean_pref(&mut self, key: &str, value: bool) {
+    pub fn set_api_boolean_pref(&mut self, key: &str, value: bool) -> Result<()> {
         if !self.error.is_empty() {
             panic!("Internal error: set_api_boolean_pref called on invalid PreferenceManager -- error message\n{}", &self.error);
         };
 
+        match self.known_pref_value(key)? {
+            Yaml::Boolean(_) => (),
+            _ => bail!("{} is not a true/false-valued MathCAT preference!", key),
+        }
         self.api_prefs.prefs.insert(key.to_string(), Yaml::Boolean(value));
+        return Ok( () );
     }
 
     /// Return the current speech rate.
